@@ -72,19 +72,19 @@ def pv_macro(v):
     return sources.pv(v)
 
 
-def gen_programs(ctx, n, big=False, layouts=('canonical', 'random', 'multi', 'macro', 'reentry', 'canonical_multi'), looponly=False):
+def gen_programs(ctx, n, big=False, layouts=('canonical', 'random', 'multi', 'macro', 'reentry', 'canonical_multi', 'backjump'), looponly=False):
     """sources with their typed form; returns list of dicts {defs, main, main_file, files, layout, L}"""
     r = ctx.rnd
     out = []
     for _ in range(n):
         g = sources.Gen(r, big=big, looponly=looponly)
         lay = r.choice(layouts)
-        defs, main = sources.reentry_program(r) if lay == 'reentry' else g.program()
+        defs, main = sources.reentry_program(r) if lay == 'reentry' else (sources.backjump_program(r) if lay == 'backjump' else g.program())
         L = None
         if lay == 'canonical_multi':
             fl, L = sources.canonical_multi(defs, main, r)
             files = {k.encode(): v.encode() for k, v in fl.items()}
-        elif lay in ('canonical', 'reentry'):
+        elif lay in ('canonical', 'reentry', 'backjump'):
             text, L = sources.canonical(defs, main, r)
             files = {b'm': text.encode()}
         elif lay == 'random':
